@@ -27,11 +27,18 @@ theorem C08_gbp_unchanged (c : Cache) (d : Date) (x : Rat) : toGbpAmt c d ⟨x, 
 
 theorem C08_own_currency_own_month (c : Cache) (d : Date) (a : CAmt) (h : a.cur ≠ "GBP") (r : Rat)
     (hr : c.get (a.cur, d.y, d.m) = some r) : toGbpAmt c d a = .ok (a.amt / r) := by
-  simp [toGbpAmt, h, hr]
+  by_cases hz : a.amt = 0
+  · simp [toGbpAmt, h, hz]; grind
+  · simp [toGbpAmt, h, hr, hz]
 
-theorem C08_missing_rate_fails (c : Cache) (d : Date) (a : CAmt) (h : a.cur ≠ "GBP")
+/-- a rate that is needed and absent is an error naming the currency and the month (a zero amount
+    needs none: it is zero pounds at any rate) -/
+theorem C08_missing_rate_fails (c : Cache) (d : Date) (a : CAmt) (h : a.cur ≠ "GBP") (hz : a.amt ≠ 0)
     (hr : c.get (a.cur, d.y, d.m) = none) : toGbpAmt c d a = .error ⟨a.cur, d.y, d.m⟩ := by
-  simp [toGbpAmt, h, hr]
+  simp [toGbpAmt, h, hr, hz]
+
+theorem C08_zero_needs_no_rate (c : Cache) (d : Date) (cur : String) : toGbpAmt c d ⟨0, cur⟩ = .ok 0 := by
+  unfold toGbpAmt; split <;> simp
 
 /-- the conversion of an amount depends on the cache only through that one key -/
 theorem C08_depends_only_on_own_key (c c' : Cache) (d : Date) (a : CAmt)
